@@ -357,7 +357,89 @@ class Exec:
         for c in pc[k:]:
             s.solver.push(); s.solver.add(c); cur.append(c)
 
+    def vars_of(s, e):
+        """(set of uninterpreted constant names, contains-UF-application flag) of an expression, memoised on the AST id"""
+        memo = s.__dict__.setdefault('_vmemo', {})
+        k = e.get_id()
+        if k in memo: return memo[k]
+        vs = set(); uf = False; seen = set(); stack = [e]
+        while stack:
+            x = stack.pop(); i = x.get_id()
+            if i in seen: continue
+            seen.add(i)
+            if i in memo: vs |= memo[i][0]; uf = uf or memo[i][1]; continue
+            if z3.is_app(x):
+                if x.num_args() == 0:
+                    if x.decl().kind() == z3.Z3_OP_UNINTERPRETED: vs.add(x.decl().name())
+                else:
+                    if x.decl().kind() == z3.Z3_OP_UNINTERPRETED: uf = True
+                    stack.extend(x.children())
+        memo[k] = (vs, uf)
+        return memo[k]
+
+    def feasible_relaxed(s, st, cond):
+        """real mode: branch feasibility on the cone of influence of cond within the path condition, leaving out conjuncts that mention
+        uninterpreted libm functions.  Fewer constraints => 'unsat' still proves the branch infeasible; 'sat'/'unknown' => explore it."""
+        cv, _ = s.vars_of(cond)
+        items = [(c,) + s.vars_of(c) for c in st.pc]
+        cone = set(cv); chosen = []; changed = True; rest = [it for it in items if not it[2]]
+        while changed:
+            changed = False
+            for it in list(rest):
+                if it[1] & cone or not it[1]:
+                    chosen.append(it[0]); cone |= it[1]; rest.remove(it); changed = True
+        s.stats['queries'] += 1; s.stats['relaxed_queries'] = s.stats.get('relaxed_queries', 0) + 1
+        t0 = time.time()
+        rs = s.__dict__.get('_rsolver')
+        if rs is None: rs = s._rsolver = z3.Solver(); rs.set('timeout', 2000)
+        rs.push()
+        try:
+            for c in chosen: rs.add(c)
+            rs.add(cond)
+            import threading
+            timer = threading.Timer(4.0, rs.ctx.interrupt); timer.start()
+            try: r = rs.check()
+            except z3.Z3Exception: r = z3.unknown
+            finally: timer.cancel()
+        finally:
+            rs.pop()
+        s.stats['solver_s'] += time.time() - t0
+        if r == z3.unsat: return None
+        if r == z3.unknown: s.stats['undecided_feasibility'] = s.stats.get('undecided_feasibility', 0) + 1
+        return UNDECIDED
+
+    def assert_relaxed_unsat(s, st, negated):
+        """try to refute the negated assertion from the cone of influence of its variables only (a proof from fewer hypotheses is a proof);
+        anything but unsat falls back to the full path condition"""
+        cv, _ = s.vars_of(negated)
+        items = [(c,) + s.vars_of(c) for c in st.pc]
+        cone = set(cv); chosen = []; changed = True; rest = list(items)
+        while changed:
+            changed = False
+            for it in list(rest):
+                if it[1] & cone or not it[1]:
+                    chosen.append(it[0]); cone |= it[1]; rest.remove(it); changed = True
+        if not rest: return False          # nothing would be left out
+        s.stats['queries'] += 1; s.stats['relaxed_queries'] = s.stats.get('relaxed_queries', 0) + 1
+        t0 = time.time()
+        rs = z3.Solver(); rs.set('timeout', 10000)
+        for c in chosen: rs.add(c)
+        rs.add(negated)
+        import threading
+        timer = threading.Timer(14.0, rs.ctx.interrupt); timer.start()
+        try: r = rs.check()
+        except z3.Z3Exception: r = z3.unknown
+        finally: timer.cancel()
+        s.stats['solver_s'] += time.time() - t0
+        return r == z3.unsat
+
     def sat(s, st, extra=None, soft=False):
+        if soft and s.fpmode == 'real' and extra is not None and not isinstance(extra, bool):
+            if st.model is not None and st.model is not UNDECIDED:
+                try:
+                    if z3.is_true(st.model.eval(extra, model_completion=True)): s.stats['cache_hits'] += 1; return st.model
+                except z3.Z3Exception: pass
+            return s.feasible_relaxed(st, extra)
         # model cache: the state's last model may already satisfy the extra condition
         if extra is not None and st.model is not None:
             try:
@@ -368,12 +450,25 @@ class Exec:
         s.sync(st)
         s.solver.push()
         if extra is not None: s.solver.add(extra)
-        r = s.solver.check()
+        import threading
+        lim = getattr(s, 'qtimeout', 15000)
+        if soft: lim = min(lim, getattr(s, 'soft_timeout', 3000))
+        s.solver.set('timeout', lim)
+        timer = threading.Timer(lim / 1000.0 * 1.5 + 1.0, s.solver.ctx.interrupt); timer.start()    # z3's own timeout is not honoured inside nlsat
+        try:
+            r = s.solver.check()
+        except z3.Z3Exception:
+            r = z3.unknown
+        finally:
+            timer.cancel()
         mdl = s.solver.model() if r == z3.sat else None
-        if r == z3.unknown:
+        if r == z3.unknown and not soft:
             r, mdl = s.fallback_cvc5(st)
         s.solver.pop()
         dt = time.time() - t0
+        if dt > 1.0 and getattr(s, 'trace', False):
+            fr = st.frames[-1] if st.frames else None
+            print('SLOW QUERY %.1fs result=%s at %s:%s extra=%s' % (dt, r, fr.fn[:50] if fr else '?', fr.lab if fr else '?', (extra.sexpr()[:400] if extra is not None else None)), flush=True)
         s.stats['solver_s'] += dt
         if dt > s.stats['max_query_s']: s.stats['max_query_s'] = dt
         if r == z3.unknown:
@@ -881,7 +976,7 @@ class Exec:
             c = s.tobool(a[0])
             if isinstance(c, bool):
                 return 0 if c else 'infeasible'
-            if s.sat(st, c) is None: return 'infeasible'
+            if s.sat(st, c, soft=True) is None: return 'infeasible'
             s.assume(st, c); return 0
         if name == '__VERIFIER_assert':
             site = '%s:%s:%d' % (fr.fn, fr.lab, fr.idx)
@@ -897,6 +992,7 @@ class Exec:
                     c2 = z3.simplify(c, som=True, som_blowup=100000000, arith_lhs=True)
                     if z3.is_true(c2): s.stats['closed_by_normalisation'] = s.stats.get('closed_by_normalisation', 0) + 1; return 0
                 except z3.Z3Exception: pass
+            if s.fpmode == 'real' and len(st.pc) > 8 and s.assert_relaxed_unsat(st, z3.Not(c)): return 0
             m = s.sat(st, z3.Not(c))
             if m is not None: raise Violation('assert', 'harness assertion violated at ' + site, st, m)
             return 0
@@ -981,7 +1077,11 @@ class Exec:
             if s.fpmode == 'real':
                 # the few libm facts every harness may rely on (stated in the evidence): positivity / defining identity
                 if base == 'sqrt': s.assume(st, z3.And(r >= 0, z3.Implies(a[0] >= 0, r * r == a[0])))
-                elif base == 'exp': s.assume(st, r > 0)
+                elif base == 'exp':
+                    s.assume(st, r > 0)
+                    lg = s.uf.setdefault(('log', 1), z3.Function('uf_log', srt, srt)); s.assume(st, lg(r) == a[0])          # log(exp t) = t
+                elif base == 'log':
+                    ep = s.uf.setdefault(('exp', 1), z3.Function('uf_exp', srt, srt)); s.assume(st, z3.Implies(a[0] > 0, ep(r) == a[0]))   # exp(log t) = t
                 elif base == 'cosh': s.assume(st, r >= 1)
                 elif base == 'pow': s.assume(st, z3.Implies(a[0] > 0, r > 0))
             return r
@@ -1074,7 +1174,9 @@ def model_inputs(v):
         if v.model is not None:
             try:
                 e = v.model.eval(i, model_completion=True)
-                if z3.is_bv_value(e): val = e.as_long()
+                if z3.is_true(e): val = 1
+                elif z3.is_false(e): val = 0
+                elif z3.is_bv_value(e): val = e.as_long()
                 elif z3.is_rational_value(e): val = [e.numerator_as_long(), e.denominator_as_long()]
                 elif z3.is_algebraic_value(e): val = e.approx(20).as_decimal(30)
                 elif z3.is_fp(e):
@@ -1091,14 +1193,14 @@ def main():
     ap.add_argument('ll'); ap.add_argument('entry')
     ap.add_argument('--fp', default='real'); ap.add_argument('--maxsteps', type=int, default=400000); ap.add_argument('--loopmax', type=int, default=64)
     ap.add_argument('--json'); ap.add_argument('--timeout', type=float, default=0); ap.add_argument('--qtimeout', type=int, default=15000); ap.add_argument('--qtimeout2', type=int, default=120000)
-    ap.add_argument('--allow-uncaught', action='store_true')
+    ap.add_argument('--allow-uncaught', action='store_true'); ap.add_argument('--trace', action='store_true')
     a = ap.parse_args()
     t0 = time.time()
     m = parse_module(open(a.ll).read())
     ex = Exec(m, a.fp, a.maxsteps, a.loopmax)
-    ex.solver.set('timeout', a.qtimeout); ex.qtimeout2 = a.qtimeout2
+    ex.solver.set('timeout', a.qtimeout); ex.qtimeout = a.qtimeout; ex.qtimeout2 = a.qtimeout2
     ex.deadline = t0 + a.timeout if a.timeout else None
-    ex.allow_uncaught = a.allow_uncaught
+    ex.allow_uncaught = a.allow_uncaught; ex.trace = a.trace
     status = 'OK'; v = None; results = []; allsamples = []; per_entry = {}
     for ent in a.entry.split(','):
         if ent not in m.funcs or m.funcs[ent]['blocks'] is None:
@@ -1119,7 +1221,7 @@ def main():
     st = ex.stats
     out = dict(status=status, entry=a.entry, fp=a.fp, paths=st['paths'], outcomes=dict(Counter(results)), forks=st['forks'], queries=st['queries'],
                cache_hits=st['cache_hits'], solver_s=round(st['solver_s'], 3), max_query_s=round(st['max_query_s'], 3), steps=st['steps'], wall_s=round(dt, 3),
-               undecided_feasibility=st.get('undecided_feasibility', 0), closed_by_normalisation=st.get('closed_by_normalisation', 0), cvc5_queries=st.get('cvc5_queries', 0), cvc5_unsat=st.get('cvc5_unsat', 0), bound_hits=st['bound_hits'], loopmax=a.loopmax, maxsteps=a.maxsteps,
+               undecided_feasibility=st.get('undecided_feasibility', 0), relaxed_queries=st.get('relaxed_queries', 0), closed_by_normalisation=st.get('closed_by_normalisation', 0), cvc5_queries=st.get('cvc5_queries', 0), cvc5_unsat=st.get('cvc5_unsat', 0), bound_hits=st['bound_hits'], loopmax=a.loopmax, maxsteps=a.maxsteps,
                functions=sorted(st['funcs']), stubs=sorted(st['stubs']), assert_sites_total=nsites, assert_sites_reached=len(st['assert_sites']),
                assert_checks=st['assert_checks'], samples=ex.samples[:8], per_entry=per_entry)
     if v is not None:
